@@ -82,6 +82,7 @@ const preludeAxioms = `(assert (forall ((b Int) (s Int) (i Int) (f Int)) (! (= (
 (assert (forall ((q BSeq) (lo Int) (hi Int) (i Int)) (! (=> (and (<= 0 lo) (<= lo hi) (<= hi (seq_len q)) (<= 0 i) (< i (- hi lo))) (= (seq_at (seq_sub q lo hi) i) (seq_at q (+ lo i)))) :pattern ((seq_at (seq_sub q lo hi) i)))))
 (assert (forall ((q BSeq) (n Int)) (! (=> (= n (seq_len q)) (= (seq_sub q 0 n) q)) :pattern ((seq_sub q 0 n)))))
 (assert (forall ((a (Array Int Int)) (o Int) (n Int) (lo Int) (hi Int)) (! (=> (and (<= 0 lo) (<= lo hi) (<= hi n)) (= (seq_sub (seqof a o n) lo hi) (seqof a (+ o lo) (- hi lo)))) :pattern ((seq_sub (seqof a o n) lo hi)))))
+(assert (forall ((a (Array Int Int)) (o Int) (n Int) (o2 Int) (n2 Int)) (! (=> (and (<= 0 n) (<= 0 n2) (= o2 (+ o n))) (= (seq_cat (seqof a o n) (seqof a o2 n2)) (seqof a o (+ n n2)))) :pattern ((seq_cat (seqof a o n) (seqof a o2 n2))))))
 (assert (forall ((q BSeq) (a Int) (b Int) (c Int)) (! (=> (and (<= 0 a) (<= a b) (<= b c) (<= c (seq_len q))) (= (seq_cat (seq_sub q a b) (seq_sub q b c)) (seq_sub q a c))) :pattern ((seq_cat (seq_sub q a b) (seq_sub q b c))))))
 (assert (forall ((q BSeq) (a Int)) (! (= (seq_sub q a a) seq_empty) :pattern ((seq_sub q a a)))))
 (assert (forall ((a BSeq) (b BSeq) (lo Int) (hi Int)) (! (=> (and (<= 0 lo) (<= lo hi) (<= hi (seq_len a))) (= (seq_sub (seq_cat a b) lo hi) (seq_sub a lo hi))) :pattern ((seq_sub (seq_cat a b) lo hi)))))
